@@ -6,6 +6,7 @@
 package verifrt
 
 import (
+	"math/rand/v2"
 	"runtime"
 	"sync"
 	"sync/atomic"
@@ -21,6 +22,10 @@ const (
 	ModeSerial      // virtual-time serialized random schedule (inside a synctest bubble only)
 	ModeFuzz        // free running: random Gosched / short spin
 	ModeInject      // virtual time: sleep 1ns at planned (site,nth) pairs
+	// ModeFuzzFree is ModeFuzz without any shared state: no counters, no lock, the decision comes from the runtime's
+	// per-thread generator. A mutex or a shared atomic inside P would add happens-before edges between the goroutines
+	// under observation and hide from the race detector exactly the races the widened windows are meant to expose.
+	ModeFuzzFree
 )
 
 // Ctl is one case's Point controller.
@@ -79,6 +84,19 @@ func Progress() {
 func P(site string) {
 	c := cur.Load()
 	if c == nil {
+		return
+	}
+	if c.mode == ModeFuzzFree {
+		switch r := rand.Uint32() % 100; {
+		case r < 15:
+			runtime.Gosched()
+		case r < 22:
+			// a short busy wait counted in iterations, not in time (inside a synctest bubble the clock stands still
+			// while a goroutine runs)
+			for i := uint32(0); i < 300*(1+r%3); i++ {
+				_ = rand.Uint32()
+			}
+		}
 		return
 	}
 	c.mu.Lock()
